@@ -41,6 +41,8 @@ Section FileOps.
         match hd_node f with
         | None => (f, RFail closed_err)
         | Some c =>
+            if Z.leb n 0 then (f, RBytes 0 [] None)      (* an empty buffer: (0, nil) at once *)
+            else
             match file_of c with
             | None => (f, RFail (if isw then EW_IncorrectFunc else EC_IsADirectory))
             | Some (d, _, _, _) =>
@@ -59,6 +61,9 @@ Section FileOps.
     end.
 
   Definition f_read_at (n off : Z) : res :=
+    if Z.ltb off 0 then RFail EG_NegativeOffset          (* the offset, then the empty buffer, before the handle *)
+    else if Z.leb n 0 then RBytes 0 [] None
+    else
     match hd_name f with
     | [] => RFail EG_Invalid
     | _ =>
@@ -68,8 +73,7 @@ Section FileOps.
             match file_of c with
             | None => RFail (if isw then EW_IncorrectFunc else EC_IsADirectory)
             | Some (d, _, _, _) =>
-                if Z.ltb off 0 then RFail EG_NegativeOffset
-                else if negb (has (hd_mode f) OpenRead) then RFail EBadFileDesc
+                if negb (has (hd_mode f) OpenRead) then RFail EBadFileDesc
                 else if Z.ltb (Z.of_nat (length d)) off then RBytes 0 [] (Some EG_EOF)
                 else
                   let got := firstn (Z.to_nat n) (skipn (Z.to_nat off) d) in
@@ -100,18 +104,21 @@ Section FileOps.
             | None => (s, f, RFail (if isw then EW_AccessDenied else EC_BadFileDesc))
             | Some (d, k, i, m) =>
                 if negb (has (hd_mode f) OpenWrite) then (s, f, RFail (if isw then EW_AccessDenied else EC_BadFileDesc))
-                else
+                else match b with
+                | [] => (s, f, RInt 0)                     (* zero bytes: nothing changes *)
+                | _ =>
                   let at_ := if has (hd_mode f) OpenAppend then Z.of_nat (length d) else hd_at f in
                   let d' := write_at_data d (Z.to_nat at_) b in
                   (with_heap s (upd h c (NFile d' k i m)), set_at (at_ + Z.of_nat (length b)),
                    RInt (Z.of_nat (length b)))
+                end
             end
         end
     end.
 
   Definition f_write_at (b : list N) (off : Z) : fsys * res :=
     if Z.ltb off 0 then (s, RFail EG_NegativeOffset)
-    else
+    else match b with [] => (s, RInt 0) | _ =>              (* zero bytes: (0, nil) at once *)
       match hd_name f with
       | [] => (s, RFail EG_Invalid)
       | _ =>
@@ -128,7 +135,7 @@ Section FileOps.
                     (with_heap s (upd h c (NFile d' k i m)), RInt (Z.of_nat (length b)))
               end
           end
-      end.
+      end end.
 
   Definition f_seek (offset : Z) (whence : Z) : handle * res :=
     match hd_name f with
@@ -157,11 +164,11 @@ Section FileOps.
     match hd_name f with
     | [] => (s, RFail EG_Invalid)
     | _ =>
-        if Z.ltb size 0 then (s, RFail EInvalidArgument)
-        else
           match hd_node f with
           | None => (s, RFail closed_err)
           | Some c =>
+              if Z.ltb size 0 then (s, RFail EInvalidArgument)
+              else
               match file_of c with
               | None => (s, RFail (if isw then EW_AccessDenied else EC_InvalidArgument))
               | Some (d, k, i, m) =>
